@@ -123,6 +123,7 @@ func init() {
 		return TupleV{st.newByteSlice(mkString("<json>").B), IfaceV{}}, true
 	}
 	exact["github.com/mr-tron/base58.Encode"] = opaqueString("base58")
+	exact["github.com/btcsuite/btcutil/base58.Encode"] = opaqueString("base58")
 	exact["regexp.MustCompile"] = noop
 	exact["regexp.Compile"] = noop
 	prefixNoop("github.com/prometheus/client_golang/prometheus/promauto.")
